@@ -627,7 +627,7 @@ class DiscreteWorld(SpaceWorld):
         if x < 0 or x >= max(self.width, 1) or y < 0 or y >= max(self.height, 1) or z < 0 or z >= max(self.depth, 1):
             raise IndexError(f'Coordinate ({x},{y},{z}) is not within the bounds of the environment.')
         else:
-            return self.cells.iloc[discrete_grid_pos_to_id(x, y, self.width, z, self.height)]
+            return self.cells.iloc[discrete_grid_pos_to_id(x, y, max(self.width, 1), z, max(self.height, 1))]
 
     @deprecated(reason='For not meeting standard python naming conventions. Use "get_cell" instead.')
     def getCell(self, x, y: int = 0, z: int = 0) -> pandas.Series:  # pragma: no cover
@@ -729,7 +729,7 @@ class DiscreteWorld(SpaceWorld):
             zlower_bound, zupper_bound = 0, 1
 
         def if_int(env, x, y, z):
-            return discrete_grid_pos_to_id(x, y, env.width, z, env.height)
+            return discrete_grid_pos_to_id(x, y, max(env.width, 1), z, max(env.height, 1))
 
         def if_tuple(env, x, y, z):
             return x, y, z
@@ -812,7 +812,7 @@ class DiscreteWorld(SpaceWorld):
             zlower_bound, zupper_bound = 0, 1
 
         def if_int(env, x, y, z):
-            return discrete_grid_pos_to_id(x, y, env.width, z, env.height)
+            return discrete_grid_pos_to_id(x, y, max(env.width, 1), z, max(env.height, 1))
 
         def if_tuple(env, x, y, z):
             return x, y, z
